@@ -1,1 +1,594 @@
-fn main(){ println!("stub"); }
+//! C15 driver.  For the same file and the same reader options, runs the
+//! synchronous reader, the real ParquetPushDecoder under adversarial delivery
+//! schedules (try_decode and try_next_reader styles, into_builder rebuilds) and
+//! the async ParquetRecordBatchStream (stream and next_row_group styles) over an
+//! AsyncFileReader whose futures return Pending at will, and records what each
+//! front-end requested, was given and produced.  Trace_PushDecoder.tla decides.
+use bytes::Bytes;
+use futures::future::BoxFuture;
+use futures::{FutureExt, StreamExt};
+use parquet::arrow::arrow_reader::{ArrowReaderMetadata, ArrowReaderOptions, ParquetRecordBatchReader, ParquetRecordBatchReaderBuilder};
+use parquet::arrow::async_reader::{AsyncFileReader, ParquetRecordBatchStreamBuilder};
+use parquet::arrow::push_decoder::{ParquetPushDecoder, ParquetPushDecoderBuilder};
+use parquet::errors::{ParquetError, Result as PqResult};
+use parquet::file::metadata::{PageIndexPolicy, ParquetMetaData, ParquetMetaDataPushDecoder, ParquetMetaDataReader};
+use parquet::DecodeResult;
+use pqcommon::*;
+use std::collections::VecDeque;
+use std::future::Future;
+use std::ops::Range;
+use std::pin::Pin;
+use std::sync::{Arc, Mutex};
+use std::task::{Context, Poll};
+use vcore::trace::Shards;
+use vcore::{guarded, json, Args, Rng, Value};
+
+fn ranges_json(r: &[Range<u64>]) -> Value {
+    Value::Array(r.iter().map(|x| json!([x.start, x.end])).collect())
+}
+
+fn new_event(f: &TestFile, cfg: &ScanCfg, front: &str, extra: Value) -> Value {
+    let mut m = serde_json::Map::new();
+    m.insert("op".into(), json!("new"));
+    m.insert("front".into(), json!(front));
+    m.insert("flen".into(), json!(f.file_len()));
+    m.insert("allowed".into(), allowed_ranges(f, cfg));
+    cfg_fields(f, cfg, &mut m);
+    m.insert("how".into(), extra);
+    Value::Object(m)
+}
+
+fn batch_event(b: &arrow_array::RecordBatch, call: bool) -> Value {
+    json!({"op":"batch","n":b.num_rows(),"toks":batch_tokens(b),"call":call})
+}
+
+fn error_event(note: String) -> Value {
+    json!({"op":"error","note":note})
+}
+
+// ------------------------------------------------------------------- sync
+
+fn run_sync(t: &mut Shards, f: &TestFile, cfg: &ScanCfg) {
+    t.emit(new_event(f, cfg, "sync", json!("sync")));
+    let r = guarded(|| -> Result<Vec<Value>, String> {
+        let b = ParquetRecordBatchReaderBuilder::try_new_with_options(f.bytes.clone(), reader_options(cfg)).map_err(|e| e.to_string())?;
+        let rdr = apply(b, f, cfg).build().map_err(|e| e.to_string())?;
+        let mut evs = vec![];
+        for b in rdr {
+            evs.push(batch_event(&b.map_err(|e| e.to_string())?, true));
+        }
+        Ok(evs)
+    });
+    match r {
+        Ok(Ok(evs)) => {
+            for e in evs {
+                t.emit(e);
+            }
+            t.emit(json!({"op":"finished"}));
+        }
+        Ok(Err(e)) | Err(e) => t.emit(error_event(e)),
+    }
+}
+
+// ------------------------------------------------------------------- push
+
+fn slice(f: &TestFile, r: &Range<u64>) -> Bytes {
+    f.bytes.slice(r.start as usize..r.end as usize)
+}
+
+/// metadata through the ParquetMetaDataPushDecoder, fetching what it asks for
+fn fetch_metadata_push(t: &mut Shards, f: &TestFile, page_index: bool) -> Result<Arc<ParquetMetaData>, String> {
+    let mut d = ParquetMetaDataPushDecoder::try_new(f.file_len())
+        .map_err(|e| e.to_string())?
+        .with_page_index_policy(if page_index { PageIndexPolicy::Optional } else { PageIndexPolicy::Skip });
+    for _ in 0..50 {
+        match d.try_decode().map_err(|e| e.to_string())? {
+            DecodeResult::NeedsData(r) => {
+                t.emit(json!({"op":"meta_request","ranges":ranges_json(&r)}));
+                let data = r.iter().map(|x| slice(f, x)).collect();
+                d.push_ranges(r, data).map_err(|e| e.to_string())?;
+            }
+            DecodeResult::Data(m) => return Ok(Arc::new(m)),
+            DecodeResult::Finished => return Err("metadata decoder finished without metadata".into()),
+        }
+    }
+    Err("metadata decoder does not terminate".into())
+}
+
+struct Pusher<'a> {
+    f: &'a TestFile,
+    cfg: &'a ScanCfg,
+    rng: Rng,
+    /// delivery style of this episode (0 = always exact)
+    style: usize,
+}
+
+impl Pusher<'_> {
+    fn push(&mut self, t: &mut Shards, d: &mut ParquetPushDecoder, ranges: Vec<Range<u64>>) -> Result<(), String> {
+        if ranges.is_empty() {
+            return Ok(());
+        }
+        t.emit(json!({"op":"push","ranges":ranges_json(&ranges)}));
+        let data = ranges.iter().map(|r| slice(self.f, r)).collect();
+        d.push_ranges(ranges, data).map_err(|e| e.to_string())
+    }
+
+    fn chunk_of(&self, r: &Range<u64>) -> Option<Range<u64>> {
+        let meta = &self.f.meta;
+        for g in 0..meta.num_row_groups() {
+            for c in 0..meta.row_group(g).num_columns() {
+                let (s, e) = self.f.chunk_range(g, c);
+                if s <= r.start && r.end <= e {
+                    return Some(s..e);
+                }
+            }
+        }
+        None
+    }
+
+    fn row_group_span(&self, g: usize) -> Range<u64> {
+        let n = self.f.meta.row_group(g).num_columns();
+        let s = (0..n).map(|c| self.f.chunk_range(g, c).0).min().unwrap();
+        let e = (0..n).map(|c| self.f.chunk_range(g, c).1).max().unwrap();
+        s..e
+    }
+
+    /// data nobody asked for (yet)
+    fn early(&mut self, t: &mut Shards, d: &mut ParquetPushDecoder) -> Result<(), String> {
+        let flen = self.f.file_len();
+        let ng = self.f.rg_rows.len();
+        let r = match self.rng.below(4) {
+            0 => vec![0..flen],
+            1 if ng > 0 => {
+                let g = self.rng.below(ng);
+                vec![self.row_group_span(g)]
+            }
+            2 if ng > 0 => {
+                let g = self.rng.below(ng);
+                let c = self.rng.below(9);
+                let (s, e) = self.f.chunk_range(g, c);
+                vec![s..e]
+            }
+            _ => {
+                let s = self.rng.below(flen as usize) as u64;
+                vec![s..(s + 1 + self.rng.below(64) as u64).min(flen)]
+            }
+        };
+        self.push(t, d, r)
+    }
+
+    /// answer the request `req` in the style of the episode
+    fn deliver(&mut self, t: &mut Shards, d: &mut ParquetPushDecoder, req: &[Range<u64>]) -> Result<(), String> {
+        let flen = self.f.file_len();
+        let style = if self.style == 9 { self.rng.below(9) } else { self.style };
+        let mut r: Vec<Range<u64>> = req.to_vec();
+        match style {
+            0 => self.push(t, d, r),
+            1 => {
+                // any order, over several calls
+                for i in (1..r.len()).rev() {
+                    r.swap(i, self.rng.below(i + 1));
+                }
+                while !r.is_empty() {
+                    let k = 1 + self.rng.below(r.len());
+                    let rest = r.split_off(k);
+                    self.push(t, d, r)?;
+                    r = rest;
+                }
+                Ok(())
+            }
+            2 => {
+                // a strict subset now: the decoder must ask for the rest
+                if r.len() > 1 {
+                    let k = 1 + self.rng.below(r.len() - 1);
+                    for i in (1..r.len()).rev() {
+                        r.swap(i, self.rng.below(i + 1));
+                    }
+                    r.truncate(k);
+                }
+                self.push(t, d, r)
+            }
+            3 => {
+                // every range widened
+                let w: Vec<Range<u64>> = r
+                    .iter()
+                    .map(|x| x.start.saturating_sub(self.rng.below(40) as u64)..(x.end + self.rng.below(40) as u64).min(flen))
+                    .collect();
+                self.push(t, d, w)
+            }
+            4 => {
+                // one range spanning everything asked for
+                let s = r.iter().map(|x| x.start).min().unwrap();
+                let e = r.iter().map(|x| x.end).max().unwrap();
+                self.push(t, d, vec![s..e])
+            }
+            5 => {
+                // the column chunks the ranges lie in (or the whole file)
+                let mut w: Vec<Range<u64>> = vec![];
+                for x in &r {
+                    let c = self.chunk_of(x).unwrap_or(0..flen);
+                    if !w.contains(&c) {
+                        w.push(c);
+                    }
+                }
+                self.push(t, d, w)
+            }
+            6 => self.push(t, d, vec![0..flen]),
+            7 => {
+                // duplicates
+                self.push(t, d, r.clone())?;
+                let k = 1 + self.rng.below(r.len());
+                r.truncate(k);
+                self.push(t, d, r)
+            }
+            _ => {
+                // answer, drop everything, answer again (with something extra)
+                self.push(t, d, r.clone())?;
+                d.clear_all_ranges();
+                t.emit(json!({"op":"clear"}));
+                self.early(t, d)?;
+                self.push(t, d, r)
+            }
+        }
+    }
+}
+
+fn builder_for(t: &mut Shards, f: &TestFile, cfg: &ScanCfg, fetched: bool) -> Result<ParquetPushDecoderBuilder, String> {
+    let meta = if fetched { fetch_metadata_push(t, f, cfg.page_index)? } else { metadata_for(f, cfg) };
+    let b = ParquetPushDecoderBuilder::try_new_decoder(meta).map_err(|e| e.to_string())?;
+    Ok(apply(b, f, cfg))
+}
+
+/// drain up to `max` batches of the readers handed off so far, oldest first
+fn drain(t: &mut Shards, readers: &mut VecDeque<ParquetRecordBatchReader>, max: usize) -> Result<(), String> {
+    let mut left = max;
+    while left > 0 {
+        let Some(r) = readers.front_mut() else { return Ok(()) };
+        match r.next() {
+            Some(Ok(b)) => {
+                t.emit(batch_event(&b, false));
+                left -= 1;
+            }
+            Some(Err(e)) => return Err(e.to_string()),
+            None => {
+                readers.pop_front();
+            }
+        }
+    }
+    Ok(())
+}
+
+fn run_push(t: &mut Shards, f: &TestFile, cfg: &ScanCfg, rng: &mut Rng, by_reader: bool) {
+    let style = *rng.pick(&[0usize, 0, 1, 2, 3, 4, 5, 6, 7, 8, 9, 9, 9]);
+    let fetched = rng.chance(25);
+    let front = if by_reader { "push_reader" } else { "push" };
+    t.emit(new_event(f, cfg, front, json!(format!("style={style} meta_fetched={fetched}"))));
+    let mut p = Pusher { f, cfg, rng: rng.fork(), style };
+    let mut cur_bs = cfg.bs;
+    let r = guarded(|| -> Result<(), String> {
+        let mut d = builder_for(t, f, p.cfg, fetched)?.build().map_err(|e| e.to_string())?;
+        let mut readers: VecDeque<ParquetRecordBatchReader> = VecDeque::new();
+        if p.rng.chance(20) {
+            p.early(t, &mut d)?;
+        }
+        let mut calls = 0usize;
+        loop {
+            calls += 1;
+            if calls > 20_000 {
+                return Err("no progress after 20000 calls".into());
+            }
+            if by_reader {
+                // possibly reconfigure at a row-group boundary
+                if d.is_at_row_group_boundary() && d.row_groups_remaining() > 0 && p.rng.chance(35) {
+                    drain(t, &mut readers, usize::MAX)?;
+                    let nb = 1 + p.rng.below(f.n.max(1) + 2);
+                    match d.into_builder() {
+                        Ok(b) => {
+                            let mut b = b.with_batch_size(nb);
+                            if p.rng.chance(50) {
+                                b = b.with_row_selection_policy(policy_of(p.rng.below(3)));
+                            }
+                            d = b.build().map_err(|e| e.to_string())?;
+                            cur_bs = nb;
+                            t.emit(json!({"op":"rebuild","bs":cur_bs,"err":false}));
+                        }
+                        Err(e) => {
+                            t.emit(json!({"op":"rebuild","bs":cur_bs,"err":true,"note":e.to_string()}));
+                            return Ok(());
+                        }
+                    }
+                }
+                match d.try_next_reader().map_err(|e| e.to_string())? {
+                    DecodeResult::NeedsData(req) => {
+                        t.emit(json!({"op":"request","ranges":ranges_json(&req)}));
+                        p.deliver(t, &mut d, &req)?;
+                    }
+                    DecodeResult::Data(reader) => {
+                        t.emit(json!({"op":"reader"}));
+                        readers.push_back(reader);
+                    }
+                    DecodeResult::Finished => {
+                        drain(t, &mut readers, usize::MAX)?;
+                        t.emit(json!({"op":"finished"}));
+                        return Ok(());
+                    }
+                }
+                // the readers are drained independently of the decoder
+                let k = p.rng.below(4);
+                drain(t, &mut readers, k)?;
+            } else {
+                match d.try_decode().map_err(|e| e.to_string())? {
+                    DecodeResult::NeedsData(req) => {
+                        t.emit(json!({"op":"request","ranges":ranges_json(&req)}));
+                        p.deliver(t, &mut d, &req)?;
+                    }
+                    DecodeResult::Data(b) => {
+                        t.emit(batch_event(&b, true));
+                        if p.rng.chance(3) {
+                            // into_builder in the middle of a row group must be refused
+                            let boundary = d.is_at_row_group_boundary();
+                            let err = d.into_builder().is_err();
+                            t.emit(json!({"op":"refused","boundary":boundary,"err":err}));
+                            return Ok(());
+                        }
+                        if p.rng.chance(5) {
+                            p.early(t, &mut d)?;
+                        }
+                    }
+                    DecodeResult::Finished => {
+                        t.emit(json!({"op":"finished"}));
+                        return Ok(());
+                    }
+                }
+            }
+        }
+    });
+    match r {
+        Ok(Ok(())) => {}
+        Ok(Err(e)) | Err(e) => t.emit(error_event(e)),
+    }
+}
+
+// ------------------------------------------------------------------ async
+
+/// a future that is Pending `left` times (waking itself) before it is Ready
+struct Delay {
+    left: usize,
+}
+
+impl Future for Delay {
+    type Output = ();
+    fn poll(mut self: Pin<&mut Self>, cx: &mut Context<'_>) -> Poll<()> {
+        if self.left == 0 {
+            Poll::Ready(())
+        } else {
+            self.left -= 1;
+            cx.waker().wake_by_ref();
+            Poll::Pending
+        }
+    }
+}
+
+type Log = Arc<Mutex<Vec<Value>>>;
+
+struct AdvReader {
+    bytes: Bytes,
+    log: Log,
+    rng: Rng,
+    vectored: bool,
+    max_pending: usize,
+    /// metadata handed over without I/O, if any
+    given: Option<Arc<ParquetMetaData>>,
+    page_index: bool,
+    in_meta: bool,
+}
+
+impl AdvReader {
+    fn delay(&mut self) -> Delay {
+        Delay { left: if self.max_pending == 0 { 0 } else { self.rng.below(self.max_pending + 1) } }
+    }
+    fn read(&self, r: &Range<u64>) -> PqResult<Bytes> {
+        if r.end as usize > self.bytes.len() || r.start > r.end {
+            return Err(ParquetError::General(format!("read outside the file: {r:?}")));
+        }
+        Ok(self.bytes.slice(r.start as usize..r.end as usize))
+    }
+}
+
+impl AsyncFileReader for AdvReader {
+    fn get_bytes(&mut self, range: Range<u64>) -> BoxFuture<'_, PqResult<Bytes>> {
+        let op = if self.in_meta { "meta_request" } else { "request" };
+        self.log.lock().unwrap().push(json!({"op":op,"ranges":ranges_json(&[range.clone()])}));
+        let d = self.delay();
+        async move {
+            d.await;
+            let b = self.read(&range)?;
+            if !self.in_meta {
+                self.log.lock().unwrap().push(json!({"op":"push","ranges":ranges_json(&[range.clone()])}));
+            }
+            Ok(b)
+        }
+        .boxed()
+    }
+
+    fn get_byte_ranges(&mut self, ranges: Vec<Range<u64>>) -> BoxFuture<'_, PqResult<Vec<Bytes>>> {
+        self.log.lock().unwrap().push(json!({"op":"request","ranges":ranges_json(&ranges)}));
+        async move {
+            let mut out = Vec::with_capacity(ranges.len());
+            if self.vectored {
+                self.delay().await;
+                for r in &ranges {
+                    out.push(self.read(r)?);
+                }
+            } else {
+                for r in &ranges {
+                    self.delay().await;
+                    out.push(self.read(r)?);
+                }
+            }
+            self.log.lock().unwrap().push(json!({"op":"push","ranges":ranges_json(&ranges)}));
+            Ok(out)
+        }
+        .boxed()
+    }
+
+    fn get_metadata<'a>(&'a mut self, options: Option<&'a ArrowReaderOptions>) -> BoxFuture<'a, PqResult<Arc<ParquetMetaData>>> {
+        async move {
+            self.delay().await;
+            if let Some(m) = &self.given {
+                return Ok(m.clone());
+            }
+            self.in_meta = true;
+            let len = self.bytes.len() as u64;
+            let policy = if self.page_index { PageIndexPolicy::Optional } else { PageIndexPolicy::Skip };
+            let r = ParquetMetaDataReader::new().with_arrow_reader_options(options).with_page_index_policy(policy).load_and_finish(&mut *self, len).await;
+            self.in_meta = false;
+            r.map(Arc::new)
+        }
+        .boxed()
+    }
+}
+
+/// poll a future to completion with a no-op waker; counts the Pending results
+fn block<F: Future>(mut fut: Pin<&mut F>, pendings: &mut usize) -> Result<F::Output, String> {
+    let waker = futures::task::noop_waker();
+    let mut cx = Context::from_waker(&waker);
+    for _ in 0..200_000 {
+        match fut.as_mut().poll(&mut cx) {
+            Poll::Ready(v) => return Ok(v),
+            Poll::Pending => *pendings += 1,
+        }
+    }
+    Err("future stays pending".into())
+}
+
+fn flush(t: &mut Shards, log: &Log) {
+    for e in log.lock().unwrap().drain(..) {
+        t.emit(e);
+    }
+}
+
+fn run_async(t: &mut Shards, f: &TestFile, cfg: &ScanCfg, rng: &mut Rng, by_row_group: bool) {
+    let vectored = rng.chance(50);
+    let max_pending = *rng.pick(&[0usize, 1, 3, 8]);
+    let fetched = rng.chance(40);
+    let front = if by_row_group { "async_rg" } else { "async" };
+    t.emit(new_event(f, cfg, front, json!(format!("vectored={vectored} max_pending={max_pending} meta_fetched={fetched}"))));
+    let log: Log = Arc::new(Mutex::new(vec![]));
+    let reader = AdvReader {
+        bytes: f.bytes.clone(),
+        log: log.clone(),
+        rng: rng.fork(),
+        vectored,
+        max_pending,
+        given: if fetched { None } else { Some(metadata_for(f, cfg)) },
+        page_index: cfg.page_index,
+        in_meta: false,
+    };
+    let mut pendings = 0usize;
+    let r = guarded(|| -> Result<(), String> {
+        let builder = if fetched {
+            let fut = ParquetRecordBatchStreamBuilder::new_with_options(reader, reader_options(cfg));
+            futures::pin_mut!(fut);
+            let b = block(fut, &mut pendings)?.map_err(|e| e.to_string())?;
+            flush(t, &log);
+            b
+        } else {
+            let m = ArrowReaderMetadata::try_new(metadata_for(f, cfg), ArrowReaderOptions::new()).map_err(|e| e.to_string())?;
+            ParquetRecordBatchStreamBuilder::new_with_metadata(reader, m)
+        };
+        let mut stream = apply(builder, f, cfg).build().map_err(|e| e.to_string())?;
+        if by_row_group {
+            loop {
+                let next = {
+                    let fut = stream.next_row_group();
+                    futures::pin_mut!(fut);
+                    block(fut, &mut pendings)?
+                };
+                flush(t, &log);
+                match next.map_err(|e| e.to_string())? {
+                    Some(reader) => {
+                        t.emit(json!({"op":"reader"}));
+                        for b in reader {
+                            t.emit(batch_event(&b.map_err(|e| e.to_string())?, false));
+                        }
+                    }
+                    None => {
+                        t.emit(json!({"op":"finished"}));
+                        break;
+                    }
+                }
+            }
+            // after the end: Ok(None) again
+            let again = {
+                let fut = stream.next_row_group();
+                futures::pin_mut!(fut);
+                block(fut, &mut pendings)?
+            };
+            flush(t, &log);
+            t.emit(json!({"op":"after_end","res": match again { Ok(None) => "none", Ok(Some(_)) => "some", Err(_) => "err" }}));
+        } else {
+            loop {
+                let next = {
+                    let fut = stream.next();
+                    futures::pin_mut!(fut);
+                    block(fut, &mut pendings)?
+                };
+                flush(t, &log);
+                match next {
+                    Some(Ok(b)) => t.emit(batch_event(&b, true)),
+                    Some(Err(e)) => return Err(e.to_string()),
+                    None => {
+                        t.emit(json!({"op":"finished"}));
+                        break;
+                    }
+                }
+            }
+            for _ in 0..2 {
+                let again = {
+                    let fut = stream.next();
+                    futures::pin_mut!(fut);
+                    block(fut, &mut pendings)?
+                };
+                flush(t, &log);
+                t.emit(json!({"op":"after_end","res": match again { None => "none", Some(Ok(_)) => "some", Some(Err(_)) => "err" }}));
+            }
+        }
+        Ok(())
+    });
+    flush(t, &log);
+    match r {
+        Ok(Ok(())) => {}
+        Ok(Err(e)) | Err(e) => t.emit(error_event(e)),
+    }
+}
+
+fn main() {
+    let args = Args::parse();
+    vcore::quiet_panics();
+    let mut rng = Rng::new(args.seed);
+    let mut t = Shards::create(&args.out, "fronts", 14);
+    let files = args.scale(28, 150);
+    let per_file = args.scale(6, 12);
+    let max_rows = args.scale(90, 200);
+    let mut episodes = 0usize;
+    for _ in 0..files {
+        let layout = random_layout(&mut rng, max_rows);
+        let f = build_file(&layout);
+        for _ in 0..per_file {
+            let cfg = random_cfg(&mut rng, &f);
+            run_sync(&mut t, &f, &cfg);
+            run_push(&mut t, &f, &cfg, &mut rng, false);
+            if rng.chance(60) {
+                run_push(&mut t, &f, &cfg, &mut rng, true);
+                episodes += 1;
+            }
+            let by_rg = rng.chance(40);
+            run_async(&mut t, &f, &cfg, &mut rng, by_rg);
+            episodes += 3;
+        }
+        t.next_episode();
+    }
+    let n = t.finish();
+    println!("DRIVER c15 events={n} episodes={episodes}");
+}
